@@ -34,7 +34,7 @@ def mc_jobs(ctx):
                      "Acts": acts("define", "del", "call", "unload")}, inv, prop, None),
     ]
     if not q:
-        jobs.append(("boot", {"DeclSet": "{1, 15}", "Ctx": '{"c1", "c2"}', "StartedSet": "{FALSE}", "MaxDefs": 2, "MaxSteps": 4,
+        jobs.append(("boot", {"DeclSet": "{1, 15}", "Ctx": '{"c1", "c2"}', "StartedSet": "{FALSE}", "MaxDefs": 2, "MaxSteps": 3,
                               "Acts": acts("boot", "reload", "define", "del", "call")}, inv, prop, None))
     jobs += [
         ("flag:service-handler-not-repointed", {"FlagSets": '{{"service-handler-not-repointed"}}', "DeclSet": "{1}", "MaxSteps": 3,
@@ -56,8 +56,35 @@ def mc_jobs(ctx):
     return jobs
 
 
+def apalache(ctx):
+    """Optional: the inductive form of Registered = {s : cnt[s] > 0} (spec/LifecycleReg.tla, integers and
+    sets only, unbounded counts) with Apalache, base and step, each under timeout 120; skipped silently when
+    Apalache is missing or stalls."""
+    import os
+    import shutil
+    import subprocess
+    if not shutil.which("apalache-mc"):
+        return "skipped (not installed)"
+    d = os.path.join(ctx.scratch, "apalache")
+    os.makedirs(d, exist_ok=True)
+    shutil.copy(os.path.join(L.tlc.SPEC_DIR, "LifecycleReg.tla"), d)
+    for args in (["--init=Init", "--inv=Inv", "--length=0"], ["--init=Inv", "--inv=Inv", "--length=1"]):
+        try:
+            p = subprocess.run(["apalache-mc", "check", "--cinit=CInit"] + args + ["LifecycleReg.tla"], cwd=d,
+                               capture_output=True, text=True, timeout=120)
+        except subprocess.TimeoutExpired:
+            return "skipped (timeout 120 s)"
+        if "EXITCODE: OK" not in p.stdout:
+            if "EXITCODE: ERROR (12)" in p.stdout or "invariant" in p.stdout.lower() and "violat" in p.stdout.lower():
+                raise L.MachineryFailure("Apalache: Registered = {s : cnt[s] > 0} is not inductive:\n" + p.stdout[-1500:])
+            return "skipped (apalache error)"
+    return "inductive (base and step proved, 3 services, unbounded counts)"
+
+
 def main(ctx):
-    sizes = {"sim": ctx.pick(12, 300), "depth": ctx.pick(9, 14), "rnd": ctx.pick(14, 200), "steps": ctx.pick(18, 40),
+    if not ctx.replay and not ctx.quick:
+        ctx.cov["apalache_registered_iff_counted"] = apalache(ctx)
+    sizes = {"sim": ctx.pick(6, 120), "depth": ctx.pick(8, 14), "rnd": ctx.pick(10, 150), "steps": ctx.pick(18, 40),
              "simsplit": ctx.pick(3, 6)}
     L.main_common(ctx, "C12", mc_jobs(ctx),
                   {"MaxGen": 8, "DeclSet": "{1, 2, 3, 4, 5, 8, 11, 12, 14, 15}", "DeclSet_masked": "{1, 2, 3, 4, 5, 8, 15}"},
